@@ -1,6 +1,8 @@
 /-
   Property C08 — set and multiset hunks have set / bag semantics.
-  Statement file (proofs in JdProofs/SetPatch.lean; the keyed-member witnesses are evaluated here).
+  Statement file (proofs in JdProofs/SetPatch.lean: set and multiset hunks; JdProofs/KeyedPatch.lean,
+  namespace `Jd.Keyed`: keyed members, section "Keyed members: general theorems"; the concrete
+  keyed-member witnesses of the last section are evaluated here).
 
   Model side: `patchNode sw false n p …` / `patchAll sw n d` (JdModel/Patch.lean) is the library's
   `Patch`; `patchSetLeaf [.set] s remove add` and `patchMsetLeaf [.mset] a remove add` are the leaf
@@ -12,11 +14,11 @@
   `applyHunkRef` (the reference interpreter for any path); `cntEq m z l` counts the members of `l`
   equivalent to `z`; `setEqB` is equality as sets up to equivalence.
 
-  The ONE hypothesis: `Faithful m E` on the finitely many elements at hand (`E` = members of the
-  target ++ removed ++ added): identities (FNV-1a values) coincide exactly for equivalent elements
-  and `equals` agrees with `equivB` on them. It excludes hash collisions and the aliases of
-  KF-C04-alias; without it set hunks act on hash codes, not on values. It is satisfiable
-  (`faithful_scalars`, evaluated in the kernel).
+  The ONE hypothesis of the set / multiset theorems: `Faithful m E` on the finitely many elements at
+  hand (`E` = members of the target ++ removed ++ added): identities (FNV-1a values) coincide
+  exactly for equivalent elements and `equals` agrees with `equivB` on them. It excludes hash
+  collisions and the aliases of KF-C04-alias; without it set hunks act on hash codes, not on
+  values. It is satisfiable (`faithful_scalars`, evaluated in the kernel).
 
   WHAT IS STATED
   * SET hunk (`{}`): fails iff some removed element is absent — or listed twice (see FINDING);
@@ -30,15 +32,68 @@
   * FINDING of the proof (`set_hunk_duplicate_removal`): a set hunk listing two equivalent removed
     elements is rejected by the code where the first version of the reference accepted it. Within
     the property as worded ("failing if an element is absent"): the code is stricter.
-  * KEYED MEMBER (`{"k":v}`), last sentence of the property — "a failure there fails the whole
-    patch" — is FALSE on the code as it is: known finding KF-C08-swallow (set.go discards the result
-    of the nested patch; TestIssue25 pins the behaviour). Counter-witness proved by evaluation:
-    `keyed_member_failure_swallowed`. The model carries the switch `sw`: `patchAll true` is the
-    code as it is, `patchAll false` propagates the error (`keyed_member_failure_propagated_when_fixed`),
-    and a nested change that does apply is applied inside the matching object (`keyed_member_applies`).
-    No general theorem is stated for keyed members (oracle + correspondence only).
+  * KEYED MEMBER (`{"k":v}`), last sentence of the property — "the nested change is applied strictly
+    inside the object matching the keys, and a failure there fails the whole patch".
+    Model: `patchNode sw false (.arr t xs) (.setKeys po :: rest) …`: the search loop of `jsonSet.patch`
+    over 64-bit identities (`pathIdent`, `pathIdentTol`, `identObj`), then the nested patch of the
+    member found with the rest of the path. The model carries the switch `sw`: `sw = true` is THE
+    CODE AS IT IS (set.go discards the result of the nested patch), `sw = false` the variant that
+    propagates the error. Reference: `applyHunkRef` with `keyedMembers` (JdSpec/HunkSem.lean), no
+    hashes: exactly one member must match; the nested reference result replaces it.
+    - THE LOOKUP IS TWO-PASS, EXACT THEN TOLERANT (`keyed_lookup_two_pass`, `keyed_exact_test`,
+      `keyed_tolerant_test`): if some member carries every key of the path object with an equivalent
+      value, exactly those members match; only otherwise a member also matches when it LACKS a key
+      for which the path object holds null (what `Diff` writes for a SetKeys member lacking a key;
+      repair D27). Under the hypotheses the hash test of the code in the pass it chooses IS that
+      test (`keyed_code_test_is_reference_test`).
+    - GENERAL THEOREM FOR THE ERROR-PROPAGATING VARIANT = REFERENCE SEMANTICS: `keyed_member_step`
+      (any rest of the path, both variants: no member matches → error; otherwise the first matching
+      member is patched with the rest and put back in place, `Keyed.keyedOut`),
+      `keyed_member_eq_reference_strict_rest` (rest = keys and indices), `keyed_member_eq_reference`,
+      `keyed_path_eq_reference` (keys, indices and NESTED keyed elements): `patchNode false` IS
+      `applyHunkRef` up to array tags — error when no member matches, error when the nested change
+      fails, the nested result in place of the member and all other members untouched otherwise.
+      `keyed_prefix_decomposition`, `keyed_then_set_leaf`, `keyed_then_multiset_leaf`: the same below any
+      navigation prefix and for a final `{}` / `[]` leaf (results equal as sets / bags, with the
+      `Faithful` hypothesis of the set / multiset theorems on the addressed array).
+    - THE CODE AS IT IS SWALLOWS A NESTED FAILURE — now a GENERAL THEOREM, not only a witness: known
+      finding KF-C08-swallow (TestIssue25 pins the behaviour, so it is not repaired).
+      `keyed_nested_failure_is_swallowed`: ANY rest of the path, any target in the domain: whenever
+      the nested patch of the matching member fails, `Patch` answers SUCCESS with the array
+      unchanged; `…_below_prefix`: the same below any navigation prefix; `…_returns_document`: the
+      result is the input document up to array tags — the hunk is silently NOT applied.
+      `keyed_member_code_vs_reference`: the code as it is agrees with the reference wherever the
+      reference applies the hunk, fails when no member matches, and answers `.ok` unchanged exactly
+      where the reference and the error-propagating variant reject the nested change. So "a failure
+      there fails the whole patch" is FALSE for `sw = true` and TRUE for `sw = false`
+      (`keyed_nested_failure_propagated`, `…_below_prefix`); the other outcomes are the same in both
+      variants (`keyed_nested_success`, `keyed_no_matching_member_fails`,
+      `keyed_code_agrees_where_reference_applies`).
+    - PERMUTATION INVARIANCE: `keyed_member_order_independent` (both variants, any rest): for a
+      permutation of the target both runs are rejected, or the results are `xs.map f` and `xs'.map f`
+      for ONE member-wise `f`; `keyed_reference_order_independent`: the same for the reference.
+    - HYPOTHESES (all Bool-valued on the inputs): `t = .raw ∨ t = .set` (plain or set-typed array);
+      `wfList xs`, `keysSorted po` (distinct sorted keys: Go maps); `Keyed.KeyedFaithful po xs` — no
+      FNV collision between the path object and the objects hashed by the two passes, for every
+      object member (without it the search acts on hash codes, not on key values);
+      `(xs.filter (keyedMembers xs po)).length ≤ 1` — at most one member matches; for the comparison
+      of the NESTED change with the reference `hunkListDoc h` and, along the rest of the path,
+      `Keyed.okAlong` / `Keyed.okNav` (the same conditions at every further keyed element; arrays
+      entered by an index plain or list-typed; the value edited at the end a list-mode document).
+    - OUTSIDE: AMBIGUITY — two or more matching members: the reference rejects the hunk, the code
+      patches the FIRST match (`keyed_member_ambiguous`); LIST-TYPED ARRAYS — on a `jsonList` /
+      `jsonMultiset` typed array (left by an earlier index hunk of the same diff) the code rejects
+      every keyed element, the reference ignores Go dynamic types (`keyed_member_on_list_typed_array`);
+      for `sw = true` no general description of a run in which an INNER keyed element swallows a
+      failure and an outer part of the path then goes on; `msetKeys` elements (no branch in the
+      model, both sides reject).
+    - CONCRETE WITNESSES by evaluation (last section): `keyed_member_failure_swallowed`,
+      `keyed_member_failure_propagated_when_fixed`, `keyed_member_applies`.
 -/
 import JdProofs.SetPatch
+import JdProofs.KeyedPatch
+
+set_option autoImplicit false
 
 namespace Jd.Props.C08
 open Jd Jd.Spec
@@ -165,6 +220,361 @@ example : ∃ ys, patchSetLeaf [.set] [.bool true, .null] [.null] [.bool false] 
   · rw [hm _ (by simp)]; simp [memEq, equivB]
   · rw [hm _ (by simp)]; simp [memEq, equivB]
   · rw [hm _ (by simp)]; simp [memEq, equivB]
+
+/-! ## Keyed members: general theorems (JdProofs/KeyedPatch.lean; names of `Jd.Keyed` written qualified)
+
+  `xs` the members of the addressed array, `po` the key object of the path element `{"k":v}`, `rest`
+  the rest of the path (not empty: a hunk addressed to the member itself is a set hunk). -/
+
+/-- **the lookup is two-pass.** If some member passes the exact test, the matching members are
+    exactly those passing the exact test; otherwise those passing the tolerant test -/
+theorem keyed_lookup_two_pass (xs : List Json) (po : List (String × Json)) :
+    keyedMembers xs po =
+      if xs.any (Keyed.exactMember po) then Keyed.exactMember po else Keyed.tolMember po :=
+  Keyed.keyedMembers_eq xs po
+
+/-- the EXACT test on an object member `kvs`: it carries every key of the path object with an
+    equivalent value -/
+theorem keyed_exact_test (kvs po : List (String × Json)) (hP : (po.map Prod.fst).Nodup) :
+    Keyed.exactMember po (.obj kvs) = true ↔
+      ∀ k v', alookup k po = some v' → ∃ v, alookup k kvs = some v ∧ equivB [.set] v v' = true :=
+  Keyed.matchesKeys_iff kvs po hP
+
+/-- the TOLERANT test: as the exact one, but a key the member LACKS is accepted when the path object
+    holds null for it -/
+theorem keyed_tolerant_test (kvs po : List (String × Json)) (hP : (po.map Prod.fst).Nodup) :
+    Keyed.tolMember po (.obj kvs) = true ↔
+      ∀ k v', alookup k po = some v' →
+        (match alookup k kvs with
+          | some v => equivB [.set] v v'
+          | none => v'.isNull) = true :=
+  Keyed.matchesKeysTol_iff kvs po hP
+
+/-- under the hypotheses the member test of the code — equality of 64-bit identities, in the pass
+    `keyedTol po xs` it chooses — is the member test of the reference, on every member -/
+theorem keyed_code_test_is_reference_test {po : List (String × Json)} {xs : List Json}
+    (hwf : wfList xs = true) (hpo : keysSorted po = true) (hF : Keyed.KeyedFaithful po xs = true)
+    {x : Json} (hx : x ∈ xs) :
+    Keyed.hashMatch (keyedTol po xs) po x = keyedMembers xs po x :=
+  Keyed.hashMatch_keyedMembers hwf hpo hF hx
+
+/-- **the keyed step, ANY rest of the path, both variants.** Either no member matches — the code
+    reports an error and the reference rejects — or the target is `l1 ++ m :: l2` with `m` the FIRST
+    matching member, an object; the code patches `m` with the rest of the path and puts the outcome
+    back in place (`Keyed.keyedOut sw`: a result replaces `m`; an error is an error for `sw = false`
+    and the UNCHANGED array for `sw = true`); the reference does the same when no other member
+    matches and rejects the hunk when another one does -/
+theorem keyed_member_step (sw : Bool) (t : Tag) (ht : t = .raw ∨ t = .set) (xs : List Json)
+    (po : List (String × Json)) (rest : Path) (hrest : rest ≠ []) (h : Hunk)
+    (hwf : wfList xs = true) (hpo : keysSorted po = true) (hF : Keyed.KeyedFaithful po xs = true) :
+    ((∀ x ∈ xs, keyedMembers xs po x = false) ∧
+      patchNode sw false (.arr t xs) (.setKeys po :: rest) h.before h.remove h.add h.after = .err ∧
+      applyHunkRef (.arr t xs) (.setKeys po :: rest) h = none) ∨
+    ∃ l1 kvs l2, xs = l1 ++ .obj kvs :: l2 ∧ (∀ x ∈ l1, keyedMembers xs po x = false) ∧
+      keyedMembers xs po (.obj kvs) = true ∧
+      patchNode sw false (.arr t xs) (.setKeys po :: rest) h.before h.remove h.add h.after =
+        Keyed.keyedOut sw l1 (.obj kvs) l2
+          (patchNode sw false (.obj kvs) rest h.before h.remove h.add h.after) ∧
+      ((∀ x ∈ l2, keyedMembers xs po x = false) →
+        applyHunkRef (.arr t xs) (.setKeys po :: rest) h =
+          (applyHunkRef (.obj kvs) rest h).map (fun v => Json.arr .raw (l1 ++ v :: l2))) ∧
+      ((∃ x ∈ l2, keyedMembers xs po x = true) →
+        applyHunkRef (.arr t xs) (.setKeys po :: rest) h = none) :=
+  Keyed.keyed_step sw t ht xs po rest hrest h hwf hpo hF
+
+/-- **the error-propagating variant IS the reference** (rest of the path: keys and indices): error
+    when no member matches, error when the nested strict change fails, the nested result in place
+    of the member and the other members untouched otherwise; up to array tags -/
+theorem keyed_member_eq_reference_strict_rest (t : Tag) (ht : t = .raw ∨ t = .set) (xs : List Json)
+    (po : List (String × Json)) (rest : Path) (hrest : rest ≠ []) (hp : strictPath rest = true)
+    (h : Hunk) (hh : hunkListDoc h = true) (hl : listDocList xs = true)
+    (hwf : wfList xs = true) (hpo : keysSorted po = true) (hF : Keyed.KeyedFaithful po xs = true)
+    (huniq : (xs.filter (keyedMembers xs po)).length ≤ 1) :
+    Outcome.mapO untag
+        (patchNode false false (.arr t xs) (.setKeys po :: rest) h.before h.remove h.add h.after)
+      = Outcome.mapO untag (optToOutcome (applyHunkRef (.arr t xs) (.setKeys po :: rest) h)) :=
+  Keyed.keyed_strict_eq_ref t ht xs po rest hrest hp h hh hl hwf hpo hF huniq
+
+/-- the same with a rest of the path made of keys, indices and NESTED keyed elements
+    (`Keyed.navPath rest`; `Keyed.okAlong rest m`: the hypotheses again at every further keyed element
+    on the way, in the matching member `m`) -/
+theorem keyed_member_eq_reference (t : Tag) (ht : t = .raw ∨ t = .set) (xs : List Json)
+    (po : List (String × Json)) (rest : Path) (hp : Keyed.navPath rest = true)
+    (h : Hunk) (hh : hunkListDoc h = true)
+    (hwf : wfList xs = true) (hpo : keysSorted po = true) (hF : Keyed.KeyedFaithful po xs = true)
+    (huniq : (xs.filter (keyedMembers xs po)).length ≤ 1)
+    (hm : ∀ m ∈ xs, keyedMembers xs po m = true → Keyed.okAlong rest m = true) :
+    Outcome.mapO untag
+        (patchNode false false (.arr t xs) (.setKeys po :: rest) h.before h.remove h.add h.after)
+      = Outcome.mapO untag (optToOutcome (applyHunkRef (.arr t xs) (.setKeys po :: rest) h)) :=
+  Keyed.keyed_eq_ref t ht xs po rest hp h hh hwf hpo hF huniq hm
+
+/-- … and from any document `n`: on every path of keys, indices and keyed elements the
+    error-propagating variant is the reference interpreter, up to array tags -/
+theorem keyed_path_eq_reference (h : Hunk) (hh : hunkListDoc h = true) (p : Path) (n : Json)
+    (hp : Keyed.navPath p = true) (hok : Keyed.okAlong p n = true) :
+    Outcome.mapO untag (patchNode false false n p h.before h.remove h.add h.after)
+      = Outcome.mapO untag (optToOutcome (applyHunkRef n p h)) :=
+  Keyed.nav_eq_ref h hh p n hp hok
+
+/-- the code AS IT IS agrees with the reference wherever the reference applies the hunk -/
+theorem keyed_code_agrees_where_reference_applies (h : Hunk) (hh : hunkListDoc h = true) (p : Path)
+    (n : Json) (hp : Keyed.navPath p = true) (hok : Keyed.okAlong p n = true) (r : Json)
+    (hr : applyHunkRef n p h = some r) :
+    Outcome.mapO untag (patchNode true false n p h.before h.remove h.add h.after) = .ok (untag r) :=
+  Keyed.nav_swallow_success h hh p n hp hok r hr
+
+/-- **decomposition along a navigation prefix** `q` (keys, indices, keyed elements; `Keyed.target q n`
+    = the sub-document it addresses by reference navigation), for ANY non-empty continuation `lf`.
+    Nothing addressed: the reference rejects and the error-propagating variant fails. `m` addressed:
+    the reference result is the reference result on `m` put back in place (`Keyed.plug .raw .raw`); a
+    successful patch of `m` by the code (either variant) is put back in place (`Keyed.plug .list .set`:
+    the same document up to tags, `Keyed.plug_untag`); for `sw = false` a failure on `m` is a failure -/
+theorem keyed_prefix_decomposition (sw : Bool) (h : Hunk) (lf : Path) (hlf : lf ≠ []) (q : Path)
+    (n : Json) (hq : Keyed.navElems q = true) (hok : Keyed.okNav q n = true) :
+    (Keyed.target q n = none →
+      applyHunkRef n (q ++ lf) h = none ∧
+      (sw = false → patchNode sw false n (q ++ lf) h.before h.remove h.add h.after = .err)) ∧
+    (∀ m, Keyed.target q n = some m →
+      applyHunkRef n (q ++ lf) h = (applyHunkRef m lf h).map (Keyed.plug .raw .raw q n) ∧
+      (∀ v, patchNode sw false m lf h.before h.remove h.add h.after = .ok v →
+        patchNode sw false n (q ++ lf) h.before h.remove h.add h.after
+          = .ok (Keyed.plug .list .set q n v)) ∧
+      (sw = false → patchNode sw false m lf h.before h.remove h.add h.after = .err →
+        patchNode sw false n (q ++ lf) h.before h.remove h.add h.after = .err)) :=
+  Keyed.nav_decomp sw h lf hlf q n hq hok
+
+/-- a SET leaf `{}` below keys, indices and keyed elements (with `Faithful` on the addressed array, as
+    in `set_hunk_at_array`): the reference rejects and the error-propagating variant fails, or both
+    apply and the results are equal as sets, put back in the same place -/
+theorem keyed_then_set_leaf (sw : Bool) (h : Hunk) (q r : Path) (n : Json)
+    (hq : Keyed.navElems q = true) (hok : Keyed.okNav q n = true) {t : Tag} {xs : List Json}
+    (ht : t = .raw ∨ t = .set) (htg : Keyed.target q n = some (.arr t xs))
+    (hF : Faithful [.set] (xs ++ h.remove ++ h.add)) (hd : distinctEq [.set] h.remove = true) :
+    (applyHunkRef n (q ++ .set :: r) h = none ∧
+      (sw = false → patchNode sw false n (q ++ .set :: r) h.before h.remove h.add h.after = .err)) ∨
+    ∃ zs ys, applyHunkRef n (q ++ .set :: r) h = some (Keyed.plug .raw .raw q n (.arr .raw zs)) ∧
+      patchNode sw false n (q ++ .set :: r) h.before h.remove h.add h.after
+        = .ok (Keyed.plug .list .set q n (.arr .set ys)) ∧
+      setEqB [.set] ys zs = true :=
+  Keyed.nav_set_ref sw h q r n hq hok ht htg hF hd
+
+/-- a MULTISET leaf `[]` below keys, indices and keyed elements: results equal as bags -/
+theorem keyed_then_multiset_leaf (sw : Bool) (h : Hunk) (q r : Path) (n : Json)
+    (hq : Keyed.navElems q = true) (hok : Keyed.okNav q n = true) {t : Tag} {xs : List Json}
+    (ht : t = .raw ∨ t = .mset) (htg : Keyed.target q n = some (.arr t xs))
+    (hF : Faithful [.mset] (xs ++ h.remove ++ h.add)) :
+    (applyHunkRef n (q ++ .mset :: r) h = none ∧
+      (sw = false → patchNode sw false n (q ++ .mset :: r) h.before h.remove h.add h.after = .err)) ∨
+    ∃ zs ys, applyHunkRef n (q ++ .mset :: r) h = some (Keyed.plug .raw .raw q n (.arr .raw zs)) ∧
+      patchNode sw false n (q ++ .mset :: r) h.before h.remove h.add h.after
+        = .ok (Keyed.plug .list .set q n (.arr .mset ys)) ∧
+      ∀ z ∈ xs ++ h.remove ++ h.add, cntEq [.mset] z ys = cntEq [.mset] z zs :=
+  Keyed.nav_mset_ref sw h q r n hq hok ht htg hF
+
+/-! ### "a failure there fails the whole patch": FALSE for the code as it is, in general (KF-C08-swallow) -/
+
+/-- **KF-C08-swallow, general form** (ANY rest of the path). The code as it is (`sw = true`): whenever
+    the nested patch of the matching member fails, `Patch` reports SUCCESS and returns the array
+    unchanged (as a set-typed array) -/
+theorem keyed_nested_failure_is_swallowed (t : Tag) (ht : t = .raw ∨ t = .set) (xs : List Json)
+    (po : List (String × Json)) (rest : Path) (hrest : rest ≠ []) (h : Hunk)
+    (hwf : wfList xs = true) (hpo : keysSorted po = true) (hF : Keyed.KeyedFaithful po xs = true)
+    (huniq : (xs.filter (keyedMembers xs po)).length ≤ 1)
+    {m : Json} (hmem : m ∈ xs) (hkm : keyedMembers xs po m = true)
+    (hfail : patchNode true false m rest h.before h.remove h.add h.after = .err) :
+    patchNode true false (.arr t xs) (.setKeys po :: rest) h.before h.remove h.add h.after
+      = .ok (.arr .set xs) :=
+  Keyed.keyed_failure_is_swallowed t ht xs po rest hrest h hwf hpo hF huniq hmem hkm hfail
+
+/-- the same with the keyed element below any prefix `q` of keys, indices and keyed elements
+    addressing the array `xs`: SUCCESS, the addressed array put back unchanged -/
+theorem keyed_nested_failure_is_swallowed_below_prefix (h : Hunk) (q : Path) (n : Json)
+    (hq : Keyed.navElems q = true) (hok : Keyed.okNav q n = true) {t : Tag} {xs : List Json}
+    (ht : t = .raw ∨ t = .set) (htg : Keyed.target q n = some (.arr t xs))
+    (po : List (String × Json)) (rest : Path) (hrest : rest ≠ [])
+    (hwf : wfList xs = true) (hpo : keysSorted po = true) (hF : Keyed.KeyedFaithful po xs = true)
+    (huniq : (xs.filter (keyedMembers xs po)).length ≤ 1)
+    {m : Json} (hmem : m ∈ xs) (hkm : keyedMembers xs po m = true)
+    (hfail : patchNode true false m rest h.before h.remove h.add h.after = .err) :
+    patchNode true false n (q ++ .setKeys po :: rest) h.before h.remove h.add h.after
+      = .ok (Keyed.plug .list .set q n (.arr .set xs)) :=
+  Keyed.keyed_failure_is_swallowed_nested h q n hq hok ht htg po rest hrest hwf hpo hF huniq hmem
+    hkm hfail
+
+/-- **whole-document form**: under `Keyed.stepsOK q n` (objects on the way have sorted keys, the member
+    entered is not void) the code as it is answers `.ok r` with `r` the INPUT DOCUMENT up to array
+    tags — a hunk whose nested change fails is silently not applied -/
+theorem keyed_nested_failure_returns_document (h : Hunk) (q : Path) (n : Json)
+    (hq : Keyed.navElems q = true) (hok : Keyed.okNav q n = true) (hst : Keyed.stepsOK q n = true)
+    {t : Tag} {xs : List Json}
+    (ht : t = .raw ∨ t = .set) (htg : Keyed.target q n = some (.arr t xs))
+    (po : List (String × Json)) (rest : Path) (hrest : rest ≠ [])
+    (hwf : wfList xs = true) (hpo : keysSorted po = true) (hF : Keyed.KeyedFaithful po xs = true)
+    (huniq : (xs.filter (keyedMembers xs po)).length ≤ 1)
+    {m : Json} (hmem : m ∈ xs) (hkm : keyedMembers xs po m = true)
+    (hfail : patchNode true false m rest h.before h.remove h.add h.after = .err) :
+    ∃ r, patchNode true false n (q ++ .setKeys po :: rest) h.before h.remove h.add h.after = .ok r ∧
+      untag r = untag n :=
+  Keyed.keyed_failure_returns_document h q n hq hok hst ht htg po rest hrest hwf hpo hF huniq hmem
+    hkm hfail
+
+/-- **the code as it is against the reference** (rest of the path: keys and indices). (a) where the
+    reference applies the hunk, so does the code, with the same result up to tags; (b) no member
+    matches: error; (c) a member matches but the reference rejects the nested change: the code
+    answers `.ok` with the array unchanged, where the error-propagating variant and the reference
+    reject -/
+theorem keyed_member_code_vs_reference (t : Tag) (ht : t = .raw ∨ t = .set) (xs : List Json)
+    (po : List (String × Json)) (rest : Path) (hrest : rest ≠ []) (hp : strictPath rest = true)
+    (h : Hunk) (hh : hunkListDoc h = true) (hl : listDocList xs = true)
+    (hwf : wfList xs = true) (hpo : keysSorted po = true) (hF : Keyed.KeyedFaithful po xs = true)
+    (huniq : (xs.filter (keyedMembers xs po)).length ≤ 1) :
+    (∀ r, applyHunkRef (.arr t xs) (.setKeys po :: rest) h = some r →
+      Outcome.mapO untag
+        (patchNode true false (.arr t xs) (.setKeys po :: rest) h.before h.remove h.add h.after)
+        = .ok (untag r)) ∧
+    ((∀ x ∈ xs, keyedMembers xs po x = false) →
+      patchNode true false (.arr t xs) (.setKeys po :: rest) h.before h.remove h.add h.after = .err) ∧
+    (∀ m ∈ xs, keyedMembers xs po m = true → applyHunkRef m rest h = none →
+      patchNode true false (.arr t xs) (.setKeys po :: rest) h.before h.remove h.add h.after
+        = .ok (.arr .set xs) ∧
+      patchNode false false (.arr t xs) (.setKeys po :: rest) h.before h.remove h.add h.after = .err ∧
+      applyHunkRef (.arr t xs) (.setKeys po :: rest) h = none) :=
+  Keyed.keyed_strict_swallow t ht xs po rest hrest hp h hh hl hwf hpo hF huniq
+
+/-- the error-propagating variant (`sw = false`): when the nested patch of the matching member fails,
+    the hunk fails — the property's clause holds for it, for any rest of the path -/
+theorem keyed_nested_failure_propagated (t : Tag) (ht : t = .raw ∨ t = .set) (xs : List Json)
+    (po : List (String × Json)) (rest : Path) (hrest : rest ≠ []) (h : Hunk)
+    (hwf : wfList xs = true) (hpo : keysSorted po = true) (hF : Keyed.KeyedFaithful po xs = true)
+    (huniq : (xs.filter (keyedMembers xs po)).length ≤ 1)
+    {m : Json} (hmem : m ∈ xs) (hkm : keyedMembers xs po m = true)
+    (hfail : patchNode false false m rest h.before h.remove h.add h.after = .err) :
+    patchNode false false (.arr t xs) (.setKeys po :: rest) h.before h.remove h.add h.after = .err :=
+  Keyed.keyed_failure_propagated t ht xs po rest hrest h hwf hpo hF huniq hmem hkm hfail
+
+/-- … also below any navigation prefix -/
+theorem keyed_nested_failure_propagated_below_prefix (h : Hunk) (q : Path) (n : Json)
+    (hq : Keyed.navElems q = true) (hok : Keyed.okNav q n = true) {t : Tag} {xs : List Json}
+    (ht : t = .raw ∨ t = .set) (htg : Keyed.target q n = some (.arr t xs))
+    (po : List (String × Json)) (rest : Path) (hrest : rest ≠ [])
+    (hwf : wfList xs = true) (hpo : keysSorted po = true) (hF : Keyed.KeyedFaithful po xs = true)
+    (huniq : (xs.filter (keyedMembers xs po)).length ≤ 1)
+    {m : Json} (hmem : m ∈ xs) (hkm : keyedMembers xs po m = true)
+    (hfail : patchNode false false m rest h.before h.remove h.add h.after = .err) :
+    patchNode false false n (q ++ .setKeys po :: rest) h.before h.remove h.add h.after = .err :=
+  Keyed.keyed_failure_propagated_nested h q n hq hok ht htg po rest hrest hwf hpo hF huniq hmem hkm
+    hfail
+
+/-- a nested patch that succeeds is put in place of the matching member, all other members
+    untouched (both variants) -/
+theorem keyed_nested_success (sw : Bool) (t : Tag) (ht : t = .raw ∨ t = .set) (xs : List Json)
+    (po : List (String × Json)) (rest : Path) (hrest : rest ≠ []) (h : Hunk)
+    (hwf : wfList xs = true) (hpo : keysSorted po = true) (hF : Keyed.KeyedFaithful po xs = true)
+    (huniq : (xs.filter (keyedMembers xs po)).length ≤ 1)
+    {m v : Json} (hmem : m ∈ xs) (hkm : keyedMembers xs po m = true)
+    (hok : patchNode sw false m rest h.before h.remove h.add h.after = .ok v) :
+    patchNode sw false (.arr t xs) (.setKeys po :: rest) h.before h.remove h.add h.after
+      = .ok (.arr .set (xs.map (fun x => if keyedMembers xs po x then v else x))) :=
+  Keyed.keyed_success sw t ht xs po rest hrest h hwf hpo hF huniq hmem hkm hok
+
+/-- no member matches the keys: error (both variants) -/
+theorem keyed_no_matching_member_fails (sw : Bool) (t : Tag) (ht : t = .raw ∨ t = .set)
+    (xs : List Json) (po : List (String × Json)) (rest : Path) (hrest : rest ≠ []) (h : Hunk)
+    (hwf : wfList xs = true) (hpo : keysSorted po = true) (hF : Keyed.KeyedFaithful po xs = true)
+    (hno : ∀ x ∈ xs, keyedMembers xs po x = false) :
+    patchNode sw false (.arr t xs) (.setKeys po :: rest) h.before h.remove h.add h.after = .err :=
+  Keyed.keyed_no_member sw t ht xs po rest hrest h hwf hpo hF hno
+
+/-! ### regardless of the order of the members in the target -/
+
+/-- **permutation invariance** (both variants, any rest of the path): for a permutation `xs'` of the
+    target `xs` the hunk is rejected in both cases, or applies in both with results `xs.map f` and
+    `xs'.map f` for one and the same member-wise `f` -/
+theorem keyed_member_order_independent (sw : Bool) (t : Tag) (ht : t = .raw ∨ t = .set)
+    {xs xs' : List Json} (hperm : xs'.Perm xs) (po : List (String × Json)) (rest : Path)
+    (hrest : rest ≠ []) (h : Hunk)
+    (hwf : wfList xs = true) (hpo : keysSorted po = true) (hF : Keyed.KeyedFaithful po xs = true)
+    (huniq : (xs.filter (keyedMembers xs po)).length ≤ 1) :
+    (patchNode sw false (.arr t xs) (.setKeys po :: rest) h.before h.remove h.add h.after = .err ∧
+      patchNode sw false (.arr t xs') (.setKeys po :: rest) h.before h.remove h.add h.after = .err) ∨
+    ∃ f : Json → Json,
+      patchNode sw false (.arr t xs) (.setKeys po :: rest) h.before h.remove h.add h.after
+        = .ok (.arr .set (xs.map f)) ∧
+      patchNode sw false (.arr t xs') (.setKeys po :: rest) h.before h.remove h.add h.after
+        = .ok (.arr .set (xs'.map f)) :=
+  Keyed.keyed_perm sw t ht hperm po rest hrest h hwf hpo hF huniq
+
+/-- the reference is order-independent in the same sense (no hypothesis) -/
+theorem keyed_reference_order_independent (t : Tag) {xs xs' : List Json} (hperm : xs'.Perm xs)
+    (po : List (String × Json)) (rest : Path) (hrest : rest ≠ []) (h : Hunk) :
+    (applyHunkRef (.arr t xs) (.setKeys po :: rest) h = none ∧
+      applyHunkRef (.arr t xs') (.setKeys po :: rest) h = none) ∨
+    ∃ f : Json → Json,
+      applyHunkRef (.arr t xs) (.setKeys po :: rest) h = some (.arr .raw (xs.map f)) ∧
+      applyHunkRef (.arr t xs') (.setKeys po :: rest) h = some (.arr .raw (xs'.map f)) :=
+  Keyed.keyed_ref_perm t hperm po rest hrest h
+
+/-! ### outside the preconditions: what the code does there -/
+
+/-- AMBIGUITY, two or more matching members: the reference rejects the hunk, the code patches the
+    FIRST matching member -/
+theorem keyed_member_ambiguous (sw : Bool) (t : Tag) (ht : t = .raw ∨ t = .set) (xs : List Json)
+    (po : List (String × Json)) (rest : Path) (hrest : rest ≠ []) (h : Hunk)
+    (hwf : wfList xs = true) (hpo : keysSorted po = true) (hF : Keyed.KeyedFaithful po xs = true)
+    (hmany : 2 ≤ (xs.filter (keyedMembers xs po)).length) :
+    applyHunkRef (.arr t xs) (.setKeys po :: rest) h = none ∧
+    ∃ l1 kvs l2, xs = l1 ++ .obj kvs :: l2 ∧ (∀ x ∈ l1, keyedMembers xs po x = false) ∧
+      keyedMembers xs po (.obj kvs) = true ∧
+      patchNode sw false (.arr t xs) (.setKeys po :: rest) h.before h.remove h.add h.after =
+        Keyed.keyedOut sw l1 (.obj kvs) l2
+          (patchNode sw false (.obj kvs) rest h.before h.remove h.add h.after) :=
+  Keyed.keyed_ambiguous sw t ht xs po rest hrest h hwf hpo hF hmany
+
+/-- a LIST-typed or MULTISET-typed array (it arises when an earlier hunk of the same diff has edited
+    the array by index): the code rejects every keyed element, whatever the members -/
+theorem keyed_member_on_list_typed_array (sw : Bool) (t : Tag) (ht : t = .list ∨ t = .mset)
+    (xs : List Json) (po : List (String × Json)) (rest : Path)
+    (before remove add after : List Json) :
+    patchNode sw false (.arr t xs) (.setKeys po :: rest) before remove add after = .err :=
+  Keyed.keyed_on_list_typed sw t ht xs po rest before remove add after
+
+/-! ### Non-vacuity of the keyed-member theorems
+
+  `Keyed.Example`: target `xs` = `[{"id":"x","v":"a"},{"id":"y","v":"c"}]`, path object `po` =
+  `{"id":"x"}`, rest `"v"`; `bad` removes `"WRONG"`, `good` removes `"a"`. Every hypothesis is proved
+  there (`hwf`, `hpo`, `hF` — the hash comparisons decided in the kernel —, `hl`, `huniq`). The file
+  also has an instance of the tolerant pass (`xsN`, `poN`), of a keyed element below a key and another
+  keyed element (`deep`), and of a set leaf below a keyed element (`setHunk`). -/
+
+example : wfList Keyed.Example.xs = true ∧ keysSorted Keyed.Example.po = true ∧
+    Keyed.KeyedFaithful Keyed.Example.po Keyed.Example.xs = true ∧
+    listDocList Keyed.Example.xs = true ∧
+    (Keyed.Example.xs.filter (keyedMembers Keyed.Example.xs Keyed.Example.po)).length ≤ 1 :=
+  ⟨Keyed.Example.hwf, Keyed.Example.hpo, Keyed.Example.hF, Keyed.Example.hl, Keyed.Example.huniq⟩
+
+/-- the general swallow theorem on the example: the nested change of `bad` fails inside the matching
+    member (`bad_nested_err`), the code as it is answers `.ok` with the array unchanged, the
+    error-propagating variant fails -/
+example :
+    patchNode true false (.arr .raw Keyed.Example.xs) [.setKeys Keyed.Example.po, .key "v"]
+      Keyed.Example.bad.before Keyed.Example.bad.remove Keyed.Example.bad.add Keyed.Example.bad.after
+      = .ok (.arr .set Keyed.Example.xs) ∧
+    patchNode false false (.arr .raw Keyed.Example.xs) [.setKeys Keyed.Example.po, .key "v"]
+      Keyed.Example.bad.before Keyed.Example.bad.remove Keyed.Example.bad.add Keyed.Example.bad.after
+      = .err := by
+  have hmem : Keyed.Example.m1 ∈ Keyed.Example.xs := by simp [Keyed.Example.xs]
+  have hkm : keyedMembers Keyed.Example.xs Keyed.Example.po Keyed.Example.m1 = true := by
+    have := Keyed.Example.hfilter
+    have h1 : Keyed.Example.m1 ∈ Keyed.Example.xs.filter
+        (keyedMembers Keyed.Example.xs Keyed.Example.po) := by rw [this]; simp
+    exact (List.mem_filter.1 h1).2
+  exact ⟨keyed_nested_failure_is_swallowed .raw (.inl rfl) _ _ [.key "v"] (by simp)
+      Keyed.Example.bad Keyed.Example.hwf Keyed.Example.hpo Keyed.Example.hF Keyed.Example.huniq hmem
+      hkm (Keyed.Example.bad_nested_err true),
+    keyed_nested_failure_propagated .raw (.inl rfl) _ _ [.key "v"] (by simp)
+      Keyed.Example.bad Keyed.Example.hwf Keyed.Example.hpo Keyed.Example.hF Keyed.Example.huniq hmem
+      hkm (Keyed.Example.bad_nested_err false)⟩
 
 /-! ## Keyed members: known finding KF-C08-swallow (counter-witness by evaluation)
 
